@@ -159,7 +159,7 @@ example : ∃ n, normalize exQuery2 = .ok n ∧ n.sources = [.proj 0] ∧ n.fina
 /-! ### 3. The answer is well-formed -/
 
 /-- `convert_to_output_format`: on any batch result that passes `validate` and in which every result
-    column source resolves, the conversion does not panic and the answer is well-formed: one column per
+    column source resolves, the conversion neither panics nor fails and the answer is well-formed: one column per
     output name, in order, under that name; all columns equally long; the row view (if requested) is the
     transposition of the column view; at most LIMIT rows — for every LIMIT and OFFSET, including
     OFFSET beyond the result (clamped since the `fix:`). -/
@@ -241,6 +241,19 @@ example : convertToOutput (α := Nat)
     { columns := [[1, 2, 3, 4], [10, 20, 30, 40]], projection := [0], aggregations := [1] }
     = .ok { colnames := ["x", "n"], rows := some [[20, 2], [30, 3]],
             columns := [("x", [20, 30]), ("n", [2, 3])] } := by
+  rfl
+
+/-- A batch result that fails `validate` (columns of different lengths — what the executor produced for
+    the open finding where-null-partition-empty) is answered with a FatalError VALUE, for every task shape:
+    no panic on the worker, no lost answer (since the `fix:`; before, `validate().unwrap()` panicked). -/
+theorem C12_output_invalid_is_error {α : Type} (t : TaskShape) (b : Batch α) (h : b.validate = false) :
+    convertToOutput t b = .err .fatal := by
+  unfold convertToOutput
+  simp [h]
+
+example : convertToOutput (α := Nat)
+    { outputColnames := ["x", "n"], sources := [.proj 0, .proj 1], limit := { limit := 5, offset := 0 }, rowformat := true }
+    { columns := [[1, 2, 3], []], projection := [0, 1], aggregations := [] } = .err .fatal := by
   rfl
 example : WellFormed (α := Nat) [.exact "x", .any] 2
     { colnames := ["x", "n"], rows := some [[20, 2], [30, 3]], columns := [("x", [20, 30]), ("n", [2, 3])] } := by
